@@ -99,8 +99,10 @@ def suite_messages(ctx):
             variants.append(("pgn-unknown", {"PGN": 130999}))
         elif k < 0.55:
             variants.append(("wrong-id", {"id": "noSuchDefinition"}))
-        elif k < 0.65:
+        elif k < 0.60:
             variants.append(("dst-noncanonical", {"destination": 35}))
+        elif k < 0.65:
+            variants.append(("dst-out-of-range", {"destination": rnd.choice([256, 300, 65535])}))
         elif k < 0.75:
             variants.append(("field-removed", {"drop": True}))
         for lab, ch in variants:
